@@ -238,7 +238,7 @@ def world_plans(draw, tier):
     if K == 1 and draw(st.integers(0, 3)) == 0:
         # a long sequential history: the operation list is executed many times
         knobs['repeat'] = draw(st.sampled_from(
-            [40, 60] if tier == 'quick' else [40, 40, 150, 150, 400, 400, 1500, 6000]))
+            [40, 60] if tier == 'quick' else [40, 40, 150, 150, 400, 400, 1500, 6000, 16000]))
     if K > 1:
         # write-point-directed schedules derived from a profiling run
         knobs['sweep'] = draw(st.sampled_from(
